@@ -187,7 +187,51 @@ func runC17(c *Ctx) {
 		vs := GErrNil("verifySignature()==nil", CalleeFn(verifySig))
 		c.RequireGate("C17.1-client-ingress", receivePublish, vs, sinks, "enqueueLocalMatched")
 		c.RequireGate("C17.1-client-ingress", receivePublish, GBool("dedup.seen(msgId)==false", seen, 0, false), sinks, "enqueueLocalMatched")
-		c.RequireGate("C17.1-client-ingress", receivePublish, GBool("isStale(ts)==false", CalleeFn(f("(*service).isStale")), 0, false), sinks, "enqueueLocalMatched")
+		if isStale := p.FuncOpt(psPkg + ":(*service).isStale"); isStale != nil {
+			c.RequireGate("C17.1-client-ingress", receivePublish, GBool("isStale(ts)==false", CalleeFn(isStale), 0, false), sinks, "enqueueLocalMatched")
+		} else {
+			// isStale inlined into its only caller: the window test itself gates delivery —
+			// (now - p.TimestampMilli) compared with ±MaxTimestampSkew on both sides, or no timestamp
+			tsF := pub("TimestampMilli")
+			skewF := p.Field(psPkg + ":Config.MaxTimestampSkew")
+			isDelta := func(v ssa.Value) bool {
+				bo, ok := v.(*ssa.BinOp)
+				return ok && bo.Op == token.SUB && (IsLoadOfField(bo.X, tsF) || IsLoadOfField(bo.Y, tsF))
+			}
+			isSkew := func(v ssa.Value, neg bool) bool {
+				if u, ok := v.(*ssa.UnOp); ok && u.Op == token.SUB {
+					return neg && usesValue(u.X, isFieldLoadPred(skewF))
+				}
+				return !neg && usesValue(v, isFieldLoadPred(skewF))
+			}
+			window := func(name string, neg bool) Gate {
+				return GCmp(name, func(a Atom) (bool, bool) {
+					// upper: delta > skew fails; lower: delta < -skew fails
+					big, small := token.GTR, token.LSS
+					if neg {
+						big, small = token.LSS, token.GTR
+					}
+					if (a.Op == big || (a.Op == token.GEQ && !neg) || (a.Op == token.LEQ && neg)) && isDelta(a.X) && isSkew(a.Y, neg) {
+						return true, false
+					}
+					if (a.Op == small || (a.Op == token.LEQ && !neg) || (a.Op == token.GEQ && neg)) && isDelta(a.Y) && isSkew(a.X, neg) {
+						return true, false
+					}
+					return false, false
+				})
+			}
+			noTs := GCmp("p.TimestampMilli == 0", func(a Atom) (bool, bool) {
+				if (a.Op != token.EQL && a.Op != token.NEQ) || !IsLoadOfField(a.X, tsF) {
+					return false, false
+				}
+				if k, isK := IntConst(a.Y); !isK || k != 0 {
+					return false, false
+				}
+				return true, a.Op == token.EQL
+			})
+			c.RequireAnyGate("C17.1-client-ingress", receivePublish, []Gate{window("now - ts <= MaxTimestampSkew", false), noTs}, nil, sinks, "enqueueLocalMatched", nil, false)
+			c.RequireAnyGate("C17.1-client-ingress", receivePublish, []Gate{window("now - ts >= -MaxTimestampSkew", true), noTs}, nil, sinks, "enqueueLocalMatched", nil, false)
+		}
 		c.RequireAnyGate("C17.1-client-ingress", receivePublish, []Gate{GErrNil("Membership.CheckMember()==nil", checkMember), depNil("Membership")}, nil, sinks, "enqueueLocalMatched", nil, false)
 		c.RequireAnyGate("C17.1-client-ingress", receivePublish, []Gate{ownerGate, noOwner}, nil, sinks, "enqueueLocalMatched", nil, false)
 		noKey := GCmp("p.KeyId == \"\"", func(a Atom) (bool, bool) {
